@@ -871,10 +871,10 @@ class MemberAccessInstruction(Instruction):
         return self.__store
 
     def ReplaceUses(self, ref, newValue):
-        if self.__parent.Reference == ref:
-            self.__parent = newValue
+        if self.__variable.Reference == ref:
+            self.__variable = newValue
 
-        if self.__store and self.__store.Reference == newValue:
+        if self.__store and self.__store.Reference == ref:
             self.__store = newValue
 
     @property
